@@ -1,13 +1,17 @@
 /-
   C11 helper lemmas: triangle algebra of the MatOp wrappers (`Model/Ops.lean`), the composite operators over Mathlib matrices,
-  the permutation around the sparse Cholesky factor, the real block system of the complex shift solve.
+  the permutation around the sparse Cholesky factor, the real block system of the complex shift solve,
+  the lift of the regenerated solver-call table to "no undocumented configuration call" and the pivoting rule of SparseLU.
 -/
 import Mathlib.Tactic.Ring
 import Mathlib.Tactic.Linarith
 import Mathlib.Data.Matrix.Mul
 import Mathlib.LinearAlgebra.Matrix.NonsingularInverse
 import Mathlib.Data.Complex.BigOperators
+import Mathlib.Algebra.Order.Field.Basic
+import Mathlib.Algebra.Order.AbsoluteValue.Basic
 import SpectraVerif.Model.Ops
+import SpectraVerif.Proofs.ScField
 set_option linter.unusedSectionVars false
 set_option linter.unusedVariables false
 set_option linter.unnecessarySeqFocus false
@@ -265,5 +269,66 @@ theorem cshiftBlock_entries {β : Type} [Sub β] [Neg β] (z : β) (n : Nat) (A 
   · simp [cshiftBlock, hi, h2]; by_cases h : i = j <;> simp [h, eq_comm]
   · simp [cshiftBlock, hj, h1]
   · simp [cshiftBlock, h1, h2]
+
+/-! ### solver-object footprint -/
+
+/-- a documented call has a documented name (or is the one documented hand-over) -/
+theorem documentedCall_name (call args : String) (h : documentedCall call args = true) : call ∈ documentedNames ∨ call = "(use)" := by
+  simp only [documentedCall, Bool.or_eq_true, Bool.and_eq_true, beq_iff_eq] at h
+  simp only [documentedNames, List.mem_cons, List.mem_nil_iff, or_false]
+  rcases h with (((h | h) | ⟨((((h | h) | h) | h) | h), _⟩) | ⟨h, _⟩) | ⟨h, _⟩ <;> simp [h]
+
+/-- **lift from the finite table to all names**: if every entry of a table is a documented call, then NO member function outside the documented
+    list is called in it -/
+theorem only_documented_names (tbl : List SolverCall) (h : ∀ e ∈ tbl, documentedCall e.call e.args = true)
+    (name : String) (hn : name ∉ documentedNames) (hu : name ≠ "(use)") : ∀ e ∈ tbl, e.call ≠ name := by
+  intro e he heq
+  rcases documentedCall_name _ _ (h e he) with h1 | h1
+  · exact hn (heq ▸ h1)
+  · exact hu (heq ▸ h1)
+
+theorem LUConfig.step_threshold (c : LUConfig) (call args : String) (h : call ≠ "setPivotThreshold") :
+    (c.step call args).pivotThreshold = c.pivotThreshold := by
+  unfold LUConfig.step
+  split <;> rfl
+
+/-- a history without `setPivotThreshold` leaves the pivot threshold where it was (any length, any order) -/
+theorem LUConfig.run_threshold (hist : List SolverCall) (c : LUConfig) (h : ∀ e ∈ hist, e.call ≠ "setPivotThreshold") :
+    (c.run hist).pivotThreshold = c.pivotThreshold := by
+  induction hist generalizing c with
+  | nil => rfl
+  | cons e t ih =>
+    have := ih (c.step e.call e.args) (fun x hx => h x (List.mem_cons_of_mem _ hx))
+    simp only [LUConfig.run, List.foldl_cons] at this ⊢
+    rw [this, LUConfig.step_threshold c _ _ (h e List.mem_cons_self)]
+
+theorem LUConfig.step_symmetric (c : LUConfig) (call args : String) (h : call = "isSymmetric" → args = "true") (hc : c.symmetricMode = true ∨ call = "isSymmetric") :
+    (c.step call args).symmetricMode = true := by
+  unfold LUConfig.step
+  by_cases h1 : call = "isSymmetric"
+  · simp [h1, h h1]
+  · rcases hc with hc | hc
+    · simp only [h1, if_false]; split <;> simp [hc]
+    · exact absurd hc h1
+
+section pivot
+variable {K : Type} [Field K] [LinearOrder K] [IsStrictOrderedRing K]
+
+/-- the multipliers of a column whose accepted diagonal pivot is `d`: with threshold `t > 0` they are bounded by `1 / t` -/
+theorem diagPivot_multiplier_bound (F : FieldFns K) (t pivmax d : K) (ht : 0 < t)
+    (hacc : @diagPivotAccepted K _ (scOfField F) t pivmax d = true) (a : K) (ha : |a| ≤ pivmax) : |a / d| ≤ 1 / t := by
+  simp only [diagPivotAccepted, Bool.and_eq_true, Bool.not_eq_true', ScF.eq, ScF.le, ScF.abs, ScF.ofInt, decide_eq_false_iff_not, decide_eq_true_eq, Int.cast_zero] at hacc
+  obtain ⟨hd0, hle⟩ := hacc
+  have hd : 0 < |d| := lt_of_le_of_ne (abs_nonneg d) (Ne.symm hd0)
+  rw [abs_div, div_le_div_iff₀ hd ht, one_mul]
+  calc |a| * t ≤ pivmax * t := by gcongr
+    _ = t * pivmax := by ring
+    _ ≤ |d| := hle
+
+/-- threshold 1 (the constructor's value) is partial pivoting: all multipliers are at most 1 in magnitude -/
+theorem diagPivot_partial (F : FieldFns K) (pivmax d : K)
+    (hacc : @diagPivotAccepted K _ (scOfField F) 1 pivmax d = true) (a : K) (ha : |a| ≤ pivmax) : |a / d| ≤ 1 := by
+  simpa using diagPivot_multiplier_bound F 1 pivmax d one_pos hacc a ha
+end pivot
 
 end Ops
